@@ -113,7 +113,7 @@ inductive Yaml where
   | str (s : Str)
   | seq (xs : List Yaml)
   | map (kvs : List (Yaml × Yaml))
-  | tagged
+  | tagged (inner : Yaml)
   deriving Repr, Inhabited
 
 /-- Error kinds (error.rs), reduced to what the correspondence compares; `panic` is a value. -/
